@@ -257,9 +257,12 @@ Fixpoint drop_to (n : nat) (s : list (nat * tbl)) : option (list (nat * tbl)) :=
   | [] => None
   | (m, snap) :: r => if Nat.eqb m n then Some s else drop_to n r
   end.
+(* ROLLBACK TO SAVEPOINT n.  The savepoint itself survives in the database, but the only transaction that
+   knows its name is DEACTIVE or closed from here on and never names it again (ids are not reused), so
+   the model forgets it at once (as if RELEASE followed) *)
 Definition db_rollback_to (n : nat) : M := fun st =>
   match drop_to n (saves st) with
-  | Some ((m, snap) :: r) => (Ok, set_db st (committed st) snap ((m, snap) :: r))
+  | Some ((m, snap) :: r) => (Ok, set_db st (committed st) snap r)
   | _ => (Unmodelled, st)
   end.
 Definition db_release (n : nat) : M := fun st =>
